@@ -472,7 +472,12 @@ impl<
                 // future time zone transitions.
                 return posix_tz.next_transition(ts);
             }
-            self.timestamps().len() - 1
+            // Without a POSIX time zone to fall back on, there is nothing
+            // after the last explicit transition.
+            if index > self.timestamps().len() - 1 {
+                return None;
+            }
+            index
         } else {
             index
         };
